@@ -906,6 +906,13 @@ def install(eng):
     m(r'^(std::ptr::|core::ptr::)?NonNull::(as_ptr|new_unchecked|cast)$', lambda e, a, c: a[0])
     m(r'^<(std::ptr::|core::ptr::)?NonNull as (std::convert::|core::convert::)?From>::from$', lambda e, a, c: a[0])
 
+    def m_nonnull_eq(e, a, c):
+        x, y = a[0], a[1]
+        x = x.cell.get(e) if isinstance(x, Ref) else x
+        y = y.cell.get(e) if isinstance(y, Ref) else y
+        return m_ptr_eq(e, [x, y], c)
+    m(r'^<(std::ptr::|core::ptr::)?NonNull as (std::cmp::|core::cmp::)?PartialEq>::eq$', m_nonnull_eq)
+
     # ---------------------------------------------------------------- atomics (single threaded: a cell)
     class AtomicV:
         __slots__ = ('cell',)
@@ -1024,20 +1031,33 @@ def install(eng):
         return z3.simplify(r)
     m(r'^core::num::<impl u(16|32|64)>::from_(ne|le)_bytes$', m_from_ne_bytes)
     # ---------------------------------------------------------------- f64
-    m(r'^(std|core)::f64::<impl f64>::is_nan$', lambda e, a, c: as_bool(z3.simplify(z3.fpIsNaN(a[0]))))
-    m(r'^(std|core)::f64::<impl f64>::is_infinite$', lambda e, a, c: as_bool(z3.simplify(z3.fpIsInf(a[0]))))
-    m(r'^(std|core)::f64::<impl f64>::is_finite$', lambda e, a, c: as_bool(z3.simplify(z3.Not(z3.Or(z3.fpIsInf(a[0]), z3.fpIsNaN(a[0]))))))
-    m(r'^(std|core)::f64::<impl f64>::to_bits$', lambda e, a, c: __import__('mirsym.engine', fromlist=['fp_to_bits']).fp_to_bits(a[0]))
-    m(r'^(std|core)::f64::<impl f64>::from_bits$', lambda e, a, c: z3.fpBVToFP(a[0], F64))
-    m(r'^(std|core)::f64::<impl f64>::abs$', lambda e, a, c: z3.fpAbs(a[0]))
-    m(r'^(std|core)::f64::<impl f64>::trunc$', lambda e, a, c: z3.fpRoundToIntegral(z3.RTZ(), a[0]))
-    m(r'^(std|core)::f64::<impl f64>::floor$', lambda e, a, c: z3.fpRoundToIntegral(z3.RTN(), a[0]))
-    m(r'^(std|core)::f64::<impl f64>::ceil$', lambda e, a, c: z3.fpRoundToIntegral(z3.RTP(), a[0]))
-    m(r'^(std|core)::f64::<impl f64>::round$', lambda e, a, c: z3.fpRoundToIntegral(z3.RNA(), a[0]))
+    m(r'^((std|core)::)?f64::<impl f64>::is_nan$', lambda e, a, c: as_bool(z3.simplify(z3.fpIsNaN(a[0]))))
+    m(r'^((std|core)::)?f64::<impl f64>::is_infinite$', lambda e, a, c: as_bool(z3.simplify(z3.fpIsInf(a[0]))))
+    m(r'^((std|core)::)?f64::<impl f64>::is_finite$', lambda e, a, c: as_bool(z3.simplify(z3.Not(z3.Or(z3.fpIsInf(a[0]), z3.fpIsNaN(a[0]))))))
+    m(r'^((std|core)::)?f64::<impl f64>::to_bits$', lambda e, a, c: __import__('mirsym.engine', fromlist=['fp_to_bits']).fp_to_bits(a[0]))
+    m(r'^((std|core)::)?f64::<impl f64>::from_bits$', lambda e, a, c: z3.fpBVToFP(a[0], F64))
+    m(r'^((std|core)::)?f64::<impl f64>::abs$', lambda e, a, c: z3.fpAbs(a[0]))
+    m(r'^((std|core)::)?f64::<impl f64>::trunc$', lambda e, a, c: z3.fpRoundToIntegral(z3.RTZ(), a[0]))
+    m(r'^((std|core)::)?f64::<impl f64>::floor$', lambda e, a, c: z3.fpRoundToIntegral(z3.RTN(), a[0]))
+    m(r'^((std|core)::)?f64::<impl f64>::ceil$', lambda e, a, c: z3.fpRoundToIntegral(z3.RTP(), a[0]))
+    m(r'^((std|core)::)?f64::<impl f64>::round$', lambda e, a, c: z3.fpRoundToIntegral(z3.RNA(), a[0]))
     def m_fract(eng, args, ctx):
+        # x - trunc(x) characterised instead of computed (the subtraction is exact, so these facts determine every comparison
+        # of the result with 0 and 1; bit-blasting the subtraction costs minutes): NaN for NaN/inf, a zero of x's sign for
+        # integral x, otherwise a non-zero value of x's sign with magnitude < 1 that is exactly x - trunc(x) when asked
         x = args[0]
-        return z3.fpSub(RNE, x, z3.fpRoundToIntegral(z3.RTZ(), x))
-    m(r'^(std|core)::f64::<impl f64>::fract$', m_fract)
+        eng.fresh_n += 1
+        f = z3.FP(f'fract!{eng.fresh_n}', F64)
+        t = z3.fpRoundToIntegral(z3.RTZ(), x)
+        special = z3.Or(z3.fpIsNaN(x), z3.fpIsInf(x))
+        integral = z3.And(z3.Not(special), z3.fpEQ(t, x))
+        eng.add_constraint(z3.Implies(special, z3.fpIsNaN(f)))
+        eng.add_constraint(z3.Implies(integral, z3.And(z3.fpIsZero(f), z3.fpIsNegative(f) == z3.fpIsNegative(x))))
+        eng.add_constraint(z3.Implies(z3.And(z3.Not(special), z3.Not(integral)),
+                                      z3.And(z3.Not(z3.fpIsNaN(f)), z3.Not(z3.fpIsZero(f)), z3.fpLT(z3.fpAbs(f), z3.FPVal(1.0, F64)),
+                                             z3.fpIsNegative(f) == z3.fpIsNegative(x))))
+        return f
+    m(r'^((std|core)::)?f64::<impl f64>::fract$', m_fract)
     def m_not(eng, args, ctx):
         a = args[0]
         while isinstance(a, Ref):
